@@ -28,6 +28,7 @@ def check(ctx):
     paths = en.paths(pr.node.body)
     n = 0
     fallback_seen = False
+    delete_seen = kept_seen = False
     for p in paths:
         nodes = list(path_nodes(p))
         from sa.pathvals import PathValues as _PV, flag_resolved_guards as _frg
@@ -56,6 +57,13 @@ def check(ctx):
                   'the previous rows) or not dropped in rewrite mode')
         run.check((len(crs) == 1) == (exists_after is False), 'R23', pr.where, pr.qualname,
                   'create iff not exists: ' + str(exists_after), 'table creation does not follow the existence test')
+        # a table that exists (and was not just dropped) is bound to the schema with describe() before rows are written to it
+        descs = [c for c in nodes if isinstance(c, ast.Call) and u(c.func) == 'storage.describe']
+        run.check((len(descs) == 1) == (exists_after is True), 'R23', pr.where, pr.qualname,
+                  'describe iff the table exists: ' + str(exists_after),
+                  'rows are appended to / updated in an existing table that was not bound to the schema (storage.describe)')
+        delete_seen = delete_seen or (bool(dels) and bool(rewrite))
+        kept_seen = kept_seen or (rewrite is False and exists_after is True)
         if dels and crs:
             run.check(nodes.index(dels[0]) < nodes.index(crs[0]), 'R23', pr.where, pr.qualname, 'delete before create', 'create precedes delete')
         # update keys
@@ -140,6 +148,10 @@ def check(ctx):
     run.check(okst, 'R23', pr.where, pr.qualname, 'storage = Storage(engine, prefix=table) created when the resource is processed',
               'the Storage whose table list decides delete / create was not created at dump time: a table created after the step '
               'was constructed is not seen, rewrite mode then appends to it instead of replacing it')
+    run.check(delete_seen and kept_seen, 'R23', pr.where, pr.qualname,
+              'a path that drops the existing table (rewrite) and a path that keeps it (append / update)',
+              'the mode no longer decides between dropping and keeping the existing table: rewrite keeps the previous rows, or append / '
+              'update lose them')
     run.check(fallback_seen, 'R23', pr.where, pr.qualname, 'a path on which missing update_keys fall back to the primary key',
               'without explicit update_keys the primary key is not used (update mode would match rows on nothing)')
     body = u(pr.node)
@@ -193,6 +205,82 @@ def check(ctx):
         run.fail('R12', where(repo, x), ne.qualname, alpha_text(x, ne.node),
                  'array / object values are converted to their database representation in place, in the very row objects that '
                  'continue downstream: with sqlite a downstream step sees \'[1, 2]\' (a JSON string) instead of [1, 2]')
+    # ... but converted they are: for every (name, fixers) entry and every fixer in list order the value under that name is replaced by
+    # fixer(value) in the row that reaches the writer (positive half of the clause; where the result is stored is judged above)
+    app = None
+    for x in ast.walk(loop):
+        if isinstance(x, ast.Assign) and isinstance(x.targets[0], ast.Subscript) and isinstance(x.value, ast.Call) and \
+                isinstance(x.value.func, ast.Name) and len(x.value.args) == 1:
+            fors = []
+            q = x
+            while q is not loop:
+                q = q._parent
+                if isinstance(q, ast.For) and q is not loop:
+                    fors.append(q)
+            key = u(x.targets[0].slice)
+            arg = x.value.args[0]
+            reads_same = (match_expr('_r.get(%s)' % key, arg) is not None or match_expr('_r[%s]' % key, arg) is not None)
+            if len(fors) == 2 and reads_same and isinstance(fors[0].target, ast.Name) and fors[0].target.id == x.value.func.id and \
+                    match_expr('_a.items()', fors[1].iter) is not None and isinstance(fors[1].target, ast.Tuple) and \
+                    [pseudo(e_) for e_ in fors[1].target.elts] == [key, pseudo(fors[0].iter)]:
+                app = x
+    run.check(app is not None, 'R12', where(repo, loop), ne.qualname,
+              'for name, fixers in actions.items(): for fixer in fixers: row[name] = fixer(row.get(name))',
+              'the fixers collected for array / object fields are not applied, in order, to the value under the field name: sqlite gets '
+              'Python lists / dicts it cannot bind (or their repr)')
+    tbl = None
+    for st_ in ne.module.tree.body:
+        if isinstance(st_, ast.Assign) and pseudo(st_.targets[0]) == 'OBJECT_FIXERS' and isinstance(st_.value, ast.Dict):
+            tbl = {k.value: [u(e_) for e_ in v.elts] for k, v in zip(st_.value.keys, st_.value.values)
+                   if isinstance(k, ast.Constant) and isinstance(v, (ast.List, ast.Tuple))}
+    run.check(tbl is not None and tbl.get('sqlite') == ['strize', 'jsonize'] and tbl.get('postgresql') == ['strize'], 'R12',
+              ne.module.relpath, ne.module.name + ':<module>', "OBJECT_FIXERS: sqlite -> [strize, jsonize], postgresql -> [strize]",
+              'the per-dialect fixers are not: plain JSON-able values first (strize), then - for sqlite, which has no JSON column - the '
+              'JSON text (jsonize)')
+    # strize: the value is rebuilt from JSON-able parts, kind by kind (a branch table; the order is free where the kinds are disjoint)
+    sz = repo.func(SQL + ':strize', None)
+    if sz is None:
+        raise AnalysisError('to_sql: strize not found')
+    p0 = sz.params[0]
+    want = {
+        'dict': ['dict(((_k, strize(_v)) for (_k, _v) in %s.items()))' % p0, '{_k: strize(_v) for (_k, _v) in %s.items()}' % p0],
+        '(str, int, float, bool)': [p0],
+        'datetime.date': ['%s.isoformat()' % p0],
+        'decimal.Decimal': ['float(%s)' % p0],
+        '(list, set)': ['[strize(_x) for _x in %s]' % p0, 'list(map(strize, %s))' % p0],
+        'None': ['None'],
+    }
+    got = {}
+    for p in Enumerator(where=sz.qualname).paths(sz.node.body):
+        if p.term != RETURN:
+            continue
+        pos = []
+        for t, pol in p.guards():
+            t, pol = norm_compare(t, pol)
+            if pol:
+                b_ = match_expr('isinstance(%s, __T)' % p0, t)
+                pos.append(u(b_['__T']) if b_ is not None else ('None' if match_expr('%s is None' % p0, t) is not None else u(t)))
+        rets = [it.node.value for it in p.items if it.kind == 'return']
+        if len(pos) == 1 and len(rets) == 1:
+            got[pos[0]] = rets[0]
+    okz = set(got) == set(want) and all(any(match_expr(pt, got[k]) is not None for pt in want[k]) for k in want)
+    run.check(okz, 'R12', sz.where, sz.qualname, 'strize: dict -> dict of strize, scalars as they are, date -> isoformat, Decimal -> float, '
+              'list / set -> list of strize, None -> None',
+              'an array / object value is not rebuilt from JSON-able parts kind by kind: %s' %
+              sorted((k, u(v)) for k, v in got.items() if k not in want or not any(match_expr(pt, v) is not None for pt in want[k])))
+    jz = repo.func(SQL + ':jsonize', None)
+    jb = [x for x in jz.node.body if not (isinstance(x, ast.Expr) and isinstance(x.value, ast.Constant))] if jz is not None else []
+    okj = len(jb) == 1 and isinstance(jb[0], ast.Return) and match_expr('json.dumps(%s)' % jz.params[0], jb[0].value) is not None
+    run.check(okj, 'R12', jz.where if jz else ne.module.relpath, jz.qualname if jz else 'jsonize', 'jsonize(obj) = json.dumps(obj)',
+              'the text stored for an array / object value in sqlite is not its JSON')
+    # the schema handed to the engine declares array / object columns as text exactly for sqlite
+    nsn = ctx.N(sd.methods['normalize_schema_for_engine'])
+    okt = len(find_stmt("if _d == 'sqlite' and _f['type'] in ['object', 'array']:\n    _f['type'] = 'string'", nsn.node)) + \
+        len(find_stmt("if _d == 'sqlite' and _f['type'] in ['array', 'object']:\n    _f['type'] = 'string'", nsn.node)) + \
+        len(find_stmt("if _d == 'sqlite' and _f['type'] in ('object', 'array'):\n    _f['type'] = 'string'", nsn.node)) + \
+        len(find_stmt("if _d == 'sqlite' and _f['type'] in ('array', 'object'):\n    _f['type'] = 'string'", nsn.node)) == 1
+    run.check(okt, 'R12', nsn.where, nsn.qualname, "sqlite: array / object columns are declared string in the engine schema",
+              'the column type the table is created with does not match the JSON text the sqlite fixers produce')
     # actions only for array / object fields
     body = u(ne.node)
     run.check(len(find_stmt("if _f['type'] in ['array', 'object']:\n    ...\n    _a.setdefault(_f['name'], []).extend(OBJECT_FIXERS[_d])", ne.node)) +
